@@ -35,7 +35,10 @@ FreeOps == {"stats", "statsmap", "forcemerge"}
 
 CloseOps == {"close"}
 
-AllOps == LockOps \cup DictOps \cup FreeOps \cup CloseOps
+\* creating / opening the index (the harness records it so that a hang or panic there is judged too)
+OpenOps == {"open"}
+
+AllOps == LockOps \cup DictOps \cup FreeOps \cup CloseOps \cup OpenOps
 
 Results == {"ok", "closed", "cancelled", "other", "panic", "hang"}
 
